@@ -1,6 +1,16 @@
-from .common import *
+from .common2 import *
 def run(tier, a=None):
-    specs = [{'src': 'h_c05.cpp', 'defs': ['TAG=' + t]} for t in tags(tier)]
-    return simple('C05', tier, a, specs,
-        'EXACT (generic branches): each analytic Jacobian returned by inverse/log/exp/compose/between/rplus/lplus/plus/rminus/lminus/minus/act and tangent plus/minus equals the derivative obtained by running the same real operation over dual numbers on an argument perturbed to first order independently of the library (dM(f)/dd_k = M(f) hat(J e_k) resp. df/dd_k = J e_k), for symbolic valid inputs, per path.',
-        ['no magnitude bound on generic branches (real arithmetic)', 'relative rotation of log/rminus/lminus results assumed below pi (injectivity radius)', 'groups: ' + ','.join(tags(tier))])
+    tg = tags(tier)
+    specs = []
+    for t in tg:
+        heavy = t in ('SE3t', 'SE23t', 'SGal3t')
+        if tier == 'quick' and heavy:
+            specs.append({'src': 'h_c05.cpp', 'defs': ['TAG=' + t], 'filter': 'c05_(inverse|log|exp|compose|act|tangent|rplus_symX|rminus_symX).*'})
+        else:
+            specs.append({'src': 'h_c05.cpp', 'defs': ['TAG=' + t]})
+            if tier != 'quick': specs.append({'src': 'h_c05.cpp', 'defs': ['TAG=' + t, 'KIDX=1'], 'filter': 'c05_.*_sym[XYT].*'})
+        if not t.startswith('R'): specs.append({'src': 'h_c05.cpp', 'defs': ['TAG=' + t, 'ZERO_ROT'], 'filter': 'c05_exp.*'})
+    tr = [{'src': 'h_trunc.cpp', 'defs': ['TAG=' + t], 'filter': 'tr_(exp|log).*', 'ap_prefixes': ['Jexp', 'Jlog']} for t in tg if not t.startswith('R')]
+    return combined('C05', tier, a, specs, tr,
+        'EXACT (generic branches; exp also at exactly zero rotation): each analytic Jacobian returned by inverse/log/exp/compose/between/rplus/lplus/plus/rminus/lminus/minus/act and tangent plus/minus equals the derivative obtained by running the same real operation over dual numbers on an argument perturbed to first order independently of the library (dM(f)/dd_k = M(f) hat(J e_k) resp. df/dd_k = J e_k), per path. Two-argument derived operations: one argument symbolic, the other concretised to exact rational points (expression swell). TRUNC: Jacobians of exp/log on the Taylor region within 1e-6*max(1,B) of the generic closed forms.',
+        ['generic branches: no magnitude bound', 'relative rotation of log/rminus/lminus results below pi', 'rplus/lplus/rminus/lminus: second argument restricted to the exact rational points K0 (quick) / K0,K1 (thorough) listed in symx/groups.h', 'groups: ' + ','.join(tg)])
